@@ -75,6 +75,16 @@ fn pair_strategy() -> impl Strategy<Value = PairCase> {
 					}
 				}
 			}
+			6 if order % 8 == 0 => {
+				// 300 more classes on both sides, renamed and re-commented between them: the diff text grows to 20-40 KiB
+				// (several buffers of a reader)
+				for k in 0..300usize {
+					let key = format!("bulk/C{k}");
+					let mk = |target: String, doc: Option<String>| crate::mapmodel::MClass { names: vec![Some(key.clone()), Some(target)], doc, ..Default::default() };
+					a.classes.entry(key.clone()).or_insert(mk(format!("bulk/OldName{k}"), if k % 3 == 0 { Some(format!("old comment {k}")) } else { None }));
+					b.classes.entry(key.clone()).or_insert(mk(format!("bulk/NewNameOfClass{k}"), if k % 2 == 0 { Some(format!("new comment {k}\nsecond line")) } else { None }));
+				}
+			}
 			4 | 5 => {
 				// a comment that both sides have and that differs only in the *kind* of white space (blank / TAB / VT / FF / CR)
 				let ws: [&str; 4] = if mode % 8 == 4 { ["\t", " ", "\u{b}", "\r"] } else { ["\u{c}", "\t", "\t", " "] };
